@@ -284,7 +284,8 @@ pub fn stage_of(s: &StageSpec, i: usize) -> tiered_whitelist_merkletree::state::
         end_time: Timestamp::from_nanos(s.end),
         mint_price: coin(1_000_000, s.denom.clone()),
         per_address_limit: s.limit,
-        mint_count_limit: None,
+        // present for even positions, absent for odd ones (not validated, not modelled)
+        mint_count_limit: if i % 2 == 0 { Some(5) } else { None },
     }
 }
 pub fn instantiate_tiered(app: &mut App, code: u64, i: &TieredInit) -> Result<Addr, String> {
